@@ -172,3 +172,38 @@ Proof. vm_compute. reflexivity. Qed.
 
 Lemma covered_count : length covered_mutators = 33 ∧ length all_mutators = 57.
 Proof. split; vm_compute; reflexivity. Qed.
+
+(* ---- side condition (c): an interface removed from its node is attached to a bus, then the node
+   is renamed: Node.UpdateName visits the listed interfaces only, the bus keeps the old name ---- *)
+Definition removed_interface_history : list op :=
+  [ NewBus 0%N; NewNode 1%N 1%Z 2; NodeRemoveInterface 2%positive 1%Z;
+    BusAddNodeInterface 1%positive (Some 4%positive); NodeUpdateName 2%positive 7%N ].
+
+Definition stale_node_name (s : state) (b : handle) (nm : name) : bool :=
+  match buses s !! b with
+  | Some B => match b_nodeNames B !! nm with
+              | Some nd => match nodes s !! nd with
+                           | Some ND => negb (bool_decide (nd_name ND = nm))
+                           | None => true end
+              | None => false end
+  | None => false
+  end.
+
+Lemma stale_node_name_not_inv s b nm : stale_node_name s b nm = true → ¬ Inv s.
+Proof.
+  intros Hl Hinv. unfold stale_node_name in Hl.
+  destruct (buses s !! b) as [B|] eqn:HB; [|discriminate Hl].
+  destruct (b_nodeNames B !! nm) as [nd|] eqn:Hn; [|discriminate Hl].
+  apply (inv_bus_names s Hinv b B HB) in Hn. unfold key_node_name in Hn.
+  case_decide; [|done]. destruct (nodes s !! nd) as [ND|]; [|done]. cbn in Hn. simplify_eq.
+  by rewrite bool_decide_eq_true_2 in Hl.
+Qed.
+
+Theorem removed_interface_refuted :
+  ∃ ops b nm, all_accepted ops = true ∧ stale_node_name (run ops) b nm = true ∧ ¬ Inv (run ops).
+Proof.
+  exists removed_interface_history, 1%positive, 1%N.
+  assert (stale_node_name (run removed_interface_history) 1%positive 1%N = true) as Hl by (vm_compute; reflexivity).
+  split; [vm_compute; reflexivity|]. split; [exact Hl|].
+  exact (stale_node_name_not_inv _ _ _ Hl).
+Qed.
